@@ -147,7 +147,9 @@ def corpus():
     # the same trees written with Python operators / Term methods; plus NOT over IN in every combination (an operator
     # override that folds `~` into the IN test loses a negation: seeded/C02-10)
     in12 = lambda neg: ["in", A, ["tuple", [["vali", 1, None], ["vali", 2, None]], None], neg, None]   # noqa: E731
-    ops = ws + [["not", in12(False), None], ["not", in12(True), None], ["not", ["not", in12(False), None], None],
+    nn = lambda neg: ["in", A, ["tuple", [["vali", 1, None], ["vali", 2, None]], None], neg, None, True]   # noqa: E731  .negate().negate()
+    ops = ws + [nn(False), nn(True), ["not", nn(True), None],        # fixed a8fde08: negate() set the flag instead of toggling it
+                ["not", in12(False), None], ["not", in12(True), None], ["not", ["not", in12(False), None], None],
                 ["not", ["isnull", A, None], None], ["not", ["between", A, B_, C_, None], None]]
     return ([{"kind": "ctx", "t": t, "c": sc} for t in ws] + [{"kind": "ctx", "t": t, "c": sc, "form": "ops"} for t in ops] + aggs)
 
